@@ -58,6 +58,7 @@ fn main() {
         "C17" => vcheck::checks::c17::run(tier),
         "C18" => vcheck::checks::c18::run(tier),
         "C19" => vcheck::checks::c19::run(tier),
+        "C20" => vcheck::checks::c20::run(tier),
         _ => {
             eprintln!("no check for {}", prop);
             std::process::exit(2)
